@@ -262,7 +262,9 @@ def replay(ob, res):
     if meth not in READS and meth not in WRITES:
         return {"reproduced": False}
     obs = rp.run_real(SNIPPET, {"method": meth})
-    if obs.get("failing"):
+    from pyvc.replay import failing_of
+    if failing_of(obs):
+        obs = dict(obs, failing=failing_of(obs))
         return {"reproduced": True, "call": "FallbackClient(caches).%s(...)" % meth, "input": obs["failing"], "cases_tried": obs.get("cases")}
     return {"reproduced": False, "searched": obs}
 
